@@ -293,16 +293,19 @@ theorem tcp_writer_wire_order (cap : Nat) (hcap : 0 < cap) {s : WSt} (h : WReach
   exact ⟨winv_wireOk inv, inv.capI⟩
 
 open Mieru.CloseStream in
-/-- … and when `Close()` has returned, every fragment is on the wire in front of a close request, and
-    nothing is left in the queue or in flight. -/
+/-- … and when `Close()` has returned, every fragment is on the wire in front of a close request,
+    nothing but close requests / responses follows it (a forced duplicate; the answer to the close
+    request of the peer's session closing in turn — the driver's `data-after-close-request` check),
+    and nothing is left in the queue or in flight. -/
 theorem tcp_writer_close_returns_after_all_data (cap : Nat) (hcap : 0 < cap) {s : WSt}
     (h : WReach wAssumed cap s) (hd : s.ph = Phase.done) :
-    ∃ m, s.wire = s.frags.map Item.data ++ List.replicate (m + 1) Item.closeReq ∧ s.queue = [] ∧ s.inflight = none := by
+    ∃ rest, s.wire = s.frags.map Item.data ++ Item.closeReq :: rest ∧
+      (∀ x ∈ rest, x = Item.closeReq ∨ x = Item.closeResp) ∧ s.queue = [] ∧ s.inflight = none := by
   have inv := wreach_winv hcap h
   have hsh := inv.shape
   simp only [Shape, hd] at hsh
-  obtain ⟨hi, hq, m, hw⟩ := hsh
-  exact ⟨m, hw, hq, hi⟩
+  obtain ⟨hi, hq, rest, hw, hr⟩ := hsh
+  exact ⟨rest, hw, hr, hq, hi⟩
 
 open Mieru.StreamWire Mieru.CloseStream in
 /-- The property on the stream transport, end to end — writer model, wire, byte stream, receiving
@@ -443,7 +446,7 @@ theorem close_lock_scope :
 
 /-- The constants and shapes the models and the finding keys rely on, regenerated from the source:
     the bounded wait of `closeWithError` is `for i := 0; i < 1000; i++ { time.Sleep(time.Millisecond); if
-    s.lastSend.Load() >= …` (`CloseStream.closeWaitMs`; the model's `forceClose` / `waitExpire`);
+    s.lastSend.Load() >= …` (`Close.closeWaitMs`; the model's `forceClose` / `waitExpire`);
     `writeChunk` waits while `Remaining() <= nFragment`, i.e. keeps one slot free for the close request
     (`WStep.write`'s guard, `tcp_writer_wire_order`'s second conjunct); `Read` answers `closedChan`
     with a clean `io.EOF` and `inputErr` with `io.ErrUnexpectedEOF`; a packet session that has received
@@ -452,7 +455,7 @@ theorem close_lock_scope :
     `localClose`. -/
 theorem close_wait_and_idle_constants :
     Gen.CloseFacts.closeWaitLoops = [("i := 0", "i < 1000", "i++", ["time.Sleep", "s.lastSend.Load"])] ∧
-    Gen.CloseFacts.closeSleeps = ["time.Millisecond"] ∧ CloseStream.closeWaitMs = 1000 * 1 ∧
+    Gen.CloseFacts.closeSleeps = ["time.Millisecond"] ∧ Close.closeWaitMs = 1000 * 1 ∧
     Gen.CloseFacts.writeReserve = ["s.sendQueue.Remaining() <= nFragment"] ∧
     Gen.CloseFacts.readSelect = [("<-s.closedChan", "return 0, io.EOF"), ("<-s.inputErr", "return 0, io.ErrUnexpectedEOF"),
       ("<-timeC", "return 0, stderror.ErrTimeout"), ("<-s.recvQueue.chanNotEmptyEvent", "")] ∧
@@ -485,11 +488,42 @@ example : ∃ s, Reach assumed s ∧ s.eof = true ∧ s.readLog = [7] ∧ s.a.se
 /-- the acceptor accepts the lossy history of the counterexample and reports the partial EOF, and
     rejects an EOF on an open session and a transmission after `Close` returned -/
 example :
-    (acceptAll {s := init} [.arq (.write 7), .arq (.write 8), .arq (.send 0 7), .arq (.send 1 8), .closeCall, .closeSend,
+    (acceptAll {s := init} [.arq (.write 7), .arq (.write 8), .arq (.send 0 7), .arq (.send 1 8), .closeCall, .closeSend 3,
         .closeRet, .arq (.deliver 0 7), .closeDeliver, .readAll, .readEOF]).map
       (fun c => (c.s.readLog, c.s.eof, c.ordered, c.patient)) = some ([7], true, false, true) ∧
     (acceptAll {s := init} [.arq (.write 7), .arq (.send 0 7), .arq (.deliver 0 7), .readAll, .readEOF]).isNone = true ∧
-    (acceptAll {s := init} [.arq (.write 7), .arq (.send 0 7), .closeCall, .closeSend, .closeRet, .arq (.send 0 7)]).isNone = true := by
+    (acceptAll {s := init} [.arq (.write 7), .arq (.send 0 7), .closeCall, .closeSend 3, .closeRet, .arq (.send 0 7)]).isNone = true := by
+  decide
+
+/-- the acceptor's timing and local-close rules: a close request written out directly (data still
+    queued) is explained as the expired wait only from 1000 ms after `Close()` was called — and leaves
+    `patient`; a reader closed with no close request delivered is explained as the idle timeout only after
+    60 s of silence — and leaves `kept`; `Close()` cannot return before a close request was emitted -/
+example :
+    (acceptAll {s := init} [.arq (.write 7), .arq (.write 8), .arq (.send 0 7), .closeCall, .closeSend 999]).isNone = true ∧
+    (acceptAll {s := init} [.arq (.write 7), .arq (.write 8), .arq (.send 0 7), .closeCall, .closeSend 1000]).map
+      (fun c => (c.patient, c.s.closeSent)) = some (false, true) ∧
+    (acceptAll {s := init} [.arq (.write 7), .arq (.send 0 7), .closeCall, .closeRet]).isNone = true ∧
+    (acceptAll {s := init} [.arq (.write 7), .arq (.write 8), .arq (.send 0 7), .arq (.send 1 8), .closeCall, .closeSend 2,
+        .closeRet, .arq (.deliver 0 7), .localClose 59999]).isNone = true ∧
+    (acceptAll {s := init} [.arq (.write 7), .arq (.write 8), .arq (.send 0 7), .arq (.send 1 8), .closeCall, .closeSend 2,
+        .closeRet, .arq (.deliver 0 7), .localClose 60000, .readAll, .readEOF]).map
+      (fun c => (c.s.readLog, c.s.eof, c.ordered, c.patient, c.kept)) = some ([7], true, true, true, false) := by
+  decide
+
+open Mieru.CloseStream in
+/-- the writer acceptor: the ordinary history (two fragments, close request behind them) is accepted
+    with a `WireOk` wire; a close request written directly 1.7 s after `Close()` while a fragment is
+    still queued (seeded change C03-3 on a stalled connection) is accepted as the expired wait with
+    `sched` cleared and a wire that is NOT `WireOk`; the same 0.9 s after `Close()` is rejected; a
+    fragment out of queue order is rejected -/
+example :
+    (wacceptAll {} [.write [3, 2], .out (.data [0, 0, 0]) 0, .closeCall, .out (.data [0, 0]) 1, .out .closeReq 1, .closeRet]).map
+      (fun c => (c.sched, wireOkB c.frags c.wire, c.ph)) = some (true, true, Phase.done) ∧
+    (wacceptAll {} [.write [0, 2], .closeCall, .out (.data []) 1700, .out .closeReq 1700, .closeRet, .out (.data [0, 0]) 1701]).map
+      (fun c => (c.sched, wireOkB c.frags c.wire, c.ph)) = some (false, false, Phase.done) ∧
+    (wacceptAll {} [.write [0, 2], .closeCall, .out (.data []) 900, .out .closeReq 900]).isNone = true ∧
+    (wacceptAll {} [.write [3, 2], .out (.data [0, 0]) 0]).isNone = true := by
   decide
 
 open Mieru.CloseStream in
